@@ -8,7 +8,8 @@ import ast
 import math
 
 from ..absint import AFormat, ALen, AList, AObj, APack, BV, Interp, Seg, SymList, Unknown
-from ..astutil import norm
+from ..cfg import cfg_of
+from ..astutil import call_name, norm
 from ..core import AnalysisError
 from ..tables import bitfields, namedtuple_fields
 
@@ -130,6 +131,12 @@ def run(repo, rep):
             writes.append(str(norm(x)))
     rep.check(not writes, "C17-c", site, f"the caller's word list `{pname}` is only read", f"{writes[:2]}: the command stream the caller holds is changed by building the payload "
               "(a second payload built from it, or the words reported afterwards, are no longer the generated stream)")
+    # chunked packing, if any, covers the whole list
+    cdp_ = repo.mod("driver_actions").func("create_driver_payload")
+    for rg in [c_ for c_ in ast.walk(cdp_) if isinstance(c_, ast.Call) and call_name(c_) == "range" and any("len(" in str(norm(a_)) for a_ in c_.args)]:
+        stop = rg.args[1] if len(rg.args) >= 2 else rg.args[0]
+        rep.check(isinstance(stop, ast.Call) and call_name(stop) == "len", "C17-c", "ethosu/vela/driver_actions.py:create_driver_payload", f"`{str(norm(rg))}` runs to the end of the list",
+                  f"the bound is `{str(norm(stop))}`: for some lengths the last words are not packed although the header declares them")
     paths = it.run("create_driver_payload", mk)
     lensym = "len(S)"
     n_ret = 0
@@ -346,7 +353,7 @@ def run(repo, rep):
     # ---------------- f: the tensor written to the output model is the payload, byte for byte
     rep.clause("C17-f", "the command-stream tensor of the output model holds exactly the payload bytes: size = len(payload), values = the whole payload buffer (no padding, no partial copy)")
     site_f = "ethosu/vela/npu_serialisation.py:serialise_npu_subgraph_into_tensors"
-    from ..astutil import call_name, single_assignments
+    from ..astutil import single_assignments
     from ..exprnorm import linear
 
     sa = single_assignments(f)
@@ -382,6 +389,20 @@ def run(repo, rep):
     lim = [n_ for n_ in ast.walk(gcs) if isinstance(n_, ast.If) and "size_in_bytes" in str(norm(n_.test))]
     rep.check(len(lim) == 1 and any(isinstance(x, ast.Raise) for x in ast.walk(lim[0])), "C17-i", "ethosu/vela/register_command_stream_generator.py:generate_command_stream",
               "a stream above the hardware limit raises", str(norm(lim[0].test)) if lim else "check not found")
+    # ... and it sees the whole stream: nothing is emitted after the check (the final NPU_OP_STOP is a word of the stream)
+    if len(lim) == 1:
+        c_g = cfg_of(gcs)
+        ln = c_g.node_of(lim[0].test)
+        emits = [x for x in ast.walk(gcs) if isinstance(x, ast.Call) and isinstance(x.func, ast.Attribute) and str(norm(x.func.value)) == "emit" and x.func.attr.startswith("cmd")]
+        late = [str(norm(x))[:60] for x in emits if c_g.node_of(x) is not None and c_g.node_of(x) != ln and c_g.reaches(ln, c_g.node_of(x))]
+        rep.check(bool(emits) and not late, "C17-i", "ethosu/vela/register_command_stream_generator.py:generate_command_stream", "the size check follows the last emission (NPU_OP_STOP included)",
+                  f"emitted after the check: {late[:2]}: a stream that reaches the limit only with these words is returned instead of being rejected")
+    # the public wrappers add nothing of their own: they build the architecture and delegate (an empty stream is a valid stream)
+    for mod_, fn_ in ((repo.mod("api"), "npu_create_driver_payload"), (repo.mod("driver_actions"), "npu_create_driver_payload")):
+        w_ = mod_.func(fn_)
+        extra = [type(st).__name__ for st in w_.body if not (isinstance(st, (ast.Return, ast.Assign, ast.ImportFrom, ast.Import)) or (isinstance(st, ast.Expr) and isinstance(st.value, ast.Constant)))]
+        rep.check(not extra, "C17-a", f"ethosu/vela/{mod_.name}.py:{fn_}", "the wrapper only builds the architecture and delegates to create_driver_payload",
+                  f"contains {extra}: a precondition of its own can reject streams the payload builder accepts (e.g. the empty stream)")
     rep.clause("C17-h", "the accelerator named through the public API maps to the configuration of the same name (row-for-row map) [rule shared with C15-c]")
     from . import c15
 
